@@ -1083,8 +1083,8 @@ package rueidis
 //@   mode bv
 //@   safety C02 index,slice
 //@   modifies *
-//@   ensures [C02 the-reader-takes-the-next-ticket-only-after-the-writer-took-it-and-frees-the-slot where-defined] old(n.mark) == 2 ==> (n.mark == 0 && r.read2 == old(r.read2) + 1 && ch == n.ch && one == old(n.one) && multi == old(n.multi) && resps == old(n.resps) && n.multi == nil && n.resps == nil)
-//@   ensures [C02 a-ticket-not-yet-written-is-not-skipped where-defined] old(n.mark) != 2 ==> (n.mark == old(n.mark) && r.read2 == old(r.read2) && ch == nil && multi == nil && resps == nil)
+//@   ensures [C02 C01 the-reader-takes-the-next-ticket-only-after-the-writer-took-it-and-frees-the-slot where-defined] old(n.mark) == 2 ==> (n.mark == 0 && r.read2 == old(r.read2) + 1 && ch == n.ch && one == old(n.one) && multi == old(n.multi) && resps == old(n.resps) && n.multi == nil && n.resps == nil)
+//@   ensures [C02 C01 a-ticket-not-yet-written-is-not-skipped where-defined] old(n.mark) != 2 ==> (n.mark == old(n.mark) && r.read2 == old(r.read2) && ch == nil && multi == nil && resps == nil)
 //@   ensures [C02 the-lock-kept-for-the-result-is-the-slots] r.resc != nil
 
 // ---------------------------------------------------------------------------------------------
